@@ -181,7 +181,7 @@ Ltac rhs_parse :=
 Theorem ral_source_eq s gov data :
   ral_source keccak ecrecover s gov data = option_map rets_of (ral_accepts keccak ecrecover s gov data).
 Proof.
-  unfold ral_source, ral_accepts, ral_parse, ral_parseAndVerifyVAA, sl.
+  unfold ral_source, ral_source_full, ral_accepts, ral_parse, ral_parseAndVerifyVAA, sl.
   unfold ral_version_slice, ral_gsidx_slice, ral_numsigs_slice, ral_version_byte, c_Version, r_hex.
   unfold ral_body_from, ral_sig_offset0, ral_echain_slice, ral_tchain_slice, ral_eaddr_slice, ral_seq_slice, ral_payload_from. cbn [fst snd].
   unfold r_var, r_num. rewrite !r_slice_val.
